@@ -466,6 +466,33 @@ def run(case):
             pdp = vp.mesh.point_data
             Fp = fem.project(F, region)
             c.close("project/F", "projected 'Deformation Gradient' point data (same storage convention as the cell data)", np.asarray(pdp["Deformation Gradient"]).reshape(-1, 3, 3).transpose(0, 2, 1), Fp)
+        # the caller keeps ONE dict of extra cell / point data and hands it to the views of two different states (and to both view
+        # classes): every view reports the quantities of ITS state, the caller's dicts keep exactly their own items
+        extra_c = {"Cell Volume": np.asarray(region.dV.sum(0))}
+        extra_p = {"Point Id": np.arange(mesh.npoints, dtype=float)}
+        U0 = field[0].values.copy()
+        states = {"A": U0, "B": U0 * -0.5 + 0.01}
+        for order in (("A", "B"), ("B", "A", "B")):
+            ec, ep = dict(extra_c), dict(extra_p)
+            for st_ in order:
+                field[0].values[:] = states[st_]
+                for vlab, mk_, kw_ in (("ViewSolid", lambda **k: fem.ViewSolid(field, solid=body, **k), {}), ("ViewField", lambda **k: fem.ViewField(field, **k), {}),
+                                       ("ViewSolid/project", lambda **k: fem.ViewSolid(field, solid=body, project=fem.project, **k), {})):
+                    if "project" in vlab and mk not in ("hexahedron", "quad", "hexahedron20"):
+                        continue
+                    v_user = mk_(cell_data=ec, point_data=ep)
+                    v_ref = mk_()
+                    c.trans += 2
+                    for dname in ("cell_data", "point_data"):
+                        du, dr = getattr(v_user.mesh, dname), getattr(v_ref.mesh, dname)
+                        for kk in dr.keys():
+                            if kk not in du.keys():
+                                c.bad(f"shared-dict/{'>'.join(order)}/{st_}/{vlab}/{dname}/{kk}/missing", "item of a view missing when the caller passed extra data", sorted(du.keys()), kk)
+                                continue
+                            c.close(f"shared-dict/{'>'.join(order)}/{st_}/{vlab}/{dname}/{kk}", "view item of the current state when the caller's extra-data dict was already used for a view of another state", np.asarray(du[kk], float), np.asarray(dr[kk], float), scale=max(np.abs(np.asarray(dr[kk], float)).max(), 1e-9))
+            if sorted(ec.keys()) != sorted(extra_c.keys()) or sorted(ep.keys()) != sorted(extra_p.keys()):
+                c.bad(f"shared-dict/{'>'.join(order)}/caller-dict", "the caller's extra-data dicts were modified by creating views", [sorted(ec.keys()), sorted(ep.keys())], [sorted(extra_c.keys()), sorted(extra_p.keys())])
+        field[0].values[:] = U0
         return c.result(dict(case=case["key"], cells=int(mesh.ncells)))
     if op == "view2d":
         mk = case["mesh"]
